@@ -11,6 +11,7 @@ import (
 	"net/http/httptest"
 	"net/url"
 	"os"
+	"os/exec"
 	"path/filepath"
 	"strings"
 	"time"
@@ -74,6 +75,8 @@ type backend struct {
 	s3           *fakes.S3 // s3
 	closers      []func()
 	open         func() (desync.Store, error) // opens a fresh client store
+	cliLoc       string                       // the same store as a CLI location ("" = not addressable)
+	cliEnv       []string
 }
 
 func (b *backend) objPath(id desync.ChunkID) string {
@@ -119,6 +122,7 @@ func newBackend(kind string, uncompressed bool, dir string) *backend {
 	switch kind {
 	case "local":
 		b.open = func() (desync.Store, error) { return desync.NewLocalStore(b.dir, opt) }
+		b.cliLoc = b.dir
 	case "http-handler", "http-skipverify":
 		up, _ := desync.NewLocalStore(b.dir, desync.StoreOptions{Uncompressed: uncompressed, SkipVerify: kind == "http-skipverify"})
 		srv := httptest.NewServer(desync.NewHTTPHandler(up, false, false, conv, ""))
@@ -127,6 +131,7 @@ func newBackend(kind string, uncompressed bool, dir string) *backend {
 			u, _ := url.Parse(srv.URL)
 			return desync.NewRemoteHTTPStore(u, opt)
 		}
+		b.cliLoc = srv.URL + "/"
 	case "http-files":
 		srv := httptest.NewServer(http.FileServer(http.Dir(b.dir)))
 		b.closers = append(b.closers, srv.Close)
@@ -134,18 +139,23 @@ func newBackend(kind string, uncompressed bool, dir string) *backend {
 			u, _ := url.Parse(srv.URL)
 			return desync.NewRemoteHTTPStore(u, opt)
 		}
+		b.cliLoc = srv.URL + "/"
 	case "s3":
 		b.s3 = fakes.NewS3("bucket")
 		b.closers = append(b.closers, b.s3.Close)
 		b.open = func() (desync.Store, error) {
 			return desync.NewS3Store(b.s3.URL(""), fakes.Creds(), fakes.Region, opt, fakes.Lookup)
 		}
+		b.cliLoc = strings.TrimSuffix(b.s3.URL("").String(), "/") + "?lookup=path"
+		b.cliEnv = []string{"S3_ACCESS_KEY=key", "S3_SECRET_KEY=secret", "S3_REGION=" + fakes.Region}
 	case "sftp":
 		b.open = func() (desync.Store, error) {
 			os.Setenv("CASYNC_SSH_PATH", shim)
 			u, _ := url.Parse("sftp://localhost" + b.dir)
 			return desync.NewSFTPStore(u, opt)
 		}
+		b.cliLoc = "sftp://localhost" + b.dir
+		b.cliEnv = []string{"CASYNC_SSH_PATH=" + shim}
 	case "ssh", "ssh-evil":
 		b.uncompressed = false
 		b.open = func() (desync.Store, error) {
@@ -158,6 +168,10 @@ func newBackend(kind string, uncompressed bool, dir string) *backend {
 			}
 			u, _ := url.Parse("ssh://localhost" + b.dir)
 			return desync.NewRemoteSSHStore(u, opt)
+		}
+		if kind == "ssh" {
+			b.cliLoc = "ssh://localhost" + b.dir
+			b.cliEnv = []string{"CASYNC_SSH_PATH=" + shim, "CASYNC_REMOTE_PATH=" + cli}
 		}
 	}
 	return b
@@ -389,6 +403,9 @@ func run(c *harness.Ctx, i int) {
 
 	// 4. consumers over the poisoned store
 	consumers(c, rng, dir, s2, blob, idx, a, tree)
+	if b.cliLoc != "" && stack == "none" && rng.Intn(2) == 0 {
+		cliConsumers(c, dir, b, blob, idx)
+	}
 
 	// 5. repair: corrupted cache entry in front of a healthy upstream
 	if kind == "local" {
@@ -508,4 +525,40 @@ func consumers(c *harness.Ctx, rng *rand.Rand, dir string, s desync.Store, blob 
 	}
 	c.Count("consumer_runs", 1)
 	_ = strings.TrimSpace
+}
+
+// cliConsumers: the commands themselves must exit non-zero over the poisoned store and not emit wrong bytes.
+func cliConsumers(c *harness.Ctx, dir string, b *backend, blob []byte, idx desync.Index) {
+	idxFile := filepath.Join(dir, "poisoned.caidx")
+	dsu.Must(dsu.WriteIndex(idxFile, idx))
+	cfg := filepath.Join(dir, "cli-config.json")
+	dsu.WriteFile(cfg, []byte(fmt.Sprintf(`{"store-options": {%q: {"uncompressed": %v, "error-retry": 1}}}`, b.cliLoc, b.uncompressed)))
+	run := func(args ...string) ([]byte, []byte, error) {
+		cmd := exec.Command(cli, append([]string{"--config", cfg}, args...)...)
+		cmd.Env = append(append(os.Environ(), "HOME="+dir), b.cliEnv...)
+		var so, se bytes.Buffer
+		cmd.Stdout, cmd.Stderr = &so, &se
+		err := cmd.Run()
+		return so.Bytes(), se.Bytes(), err
+	}
+	out := filepath.Join(dir, "cli-extract.out")
+	if _, se, err := run("extract", "-s", b.cliLoc, "-e", "1", idxFile, out); err == nil {
+		got, _ := os.ReadFile(out)
+		c.Violation("cli-extract", "`desync extract` over a %s store with a poisoned chunk exited 0 (output equals blob: %v) %s", b.kind, bytes.Equal(got, blob), se)
+		return
+	} else if bytes.Contains(se, []byte("panic:")) {
+		c.Violation("cli-crash", "%s", se)
+		return
+	}
+	if so, se, err := run("cat", "-s", b.cliLoc, "-e", "1", idxFile); err == nil || !bytes.HasPrefix(blob, so) {
+		c.Violation("cli-cat", "`desync cat` over a %s store with a poisoned chunk: exit error %v, %d bytes on stdout, correct prefix=%v %s", b.kind, err, len(so), bytes.HasPrefix(blob, so), se)
+		return
+	}
+	dst := filepath.Join(dir, "cli-untar.dst")
+	os.MkdirAll(dst, 0755)
+	if _, se, err := run("untar", "-i", "-s", b.cliLoc, "-e", "1", "--no-same-owner", idxFile, dst); err == nil {
+		c.Violation("cli-untar", "`desync untar -i` over a %s store with a poisoned chunk exited 0 %s", b.kind, se)
+		return
+	}
+	c.Count("cli_consumer_runs", 1)
 }
